@@ -49,6 +49,25 @@ GENERIC_USED = [
     "deleting the old metadata document before moving the new one into place",
     "reading the cid reference file before taking the flock",
     "threading primitives used in the multiprocessing arm (or the reverse)",
+    "a character count used as a byte size (text-mode truncate / seek)",
+    "a variable bound only inside a loop body or a handler and read afterwards",
+    "break / early return in the loop over a pid's metadata documents",
+    "%-formatting with run-time text (or any other raising statement) placed before the roll-back call in an error handler",
+    "tolerating keys that are missing from hashstore.yaml",
+    "reading reference files inside the except handler of a mismatch error",
+    "argparse features that re-interpret option values (fromfile_prefix_chars, choices, type=...)",
+    "truthiness tests that treat 0 / empty as missing (sizes, empty objects)",
+    "case / whitespace normalisation (strip, lower, upper) of pids, cids, format ids or algorithm names before they are used or compared",
+    "os.register_at_fork / atexit hooks",
+    "moving a guard call below the first mutation in _untag_object",
+    "dropping notify() or notifying the wrong condition",
+    "text-mode open of data objects",
+    "temp files created outside the store's tmp directories (NamedTemporaryFile without dir=, _create_path result reused)",
+    "removing _check_string / argument validation from a public method",
+    "deleting the just-stored object in store_object when tagging fails",
+    "dropping the rewind (seek(0)) in Stream.__iter__",
+    "closing a raw file descriptor twice",
+    "renaming the temp file into place before it is closed / flushed",
 ]
 
 SEED = """You are helping test a verification framework by acting as an independent "bug seeder". Work ONLY inside the git worktree {wt} (a checkout of the Python project DataONEorg/hashstore: a content-addressable file object store; source in {wt}/src/hashstore, tests in {wt}/tests). Do NOT read or touch /verif or /repo; do not look for any verification tooling. Everything you need is in the worktree.
@@ -112,6 +131,12 @@ FOCI = [
     "`store_metadata` / `delete_metadata`: extract the three inline metadata-document claim blocks and their release blocks into helper methods `_synchronize_metadata_locked_docs(pid_doc)` / `_release_metadata_locked_docs(pid_doc)` written exactly like the existing object helpers (multiprocessing arm and threading arm, same wait loop / append, same remove / notify, same log messages where possible), and call them at exactly the points where the inline blocks were (claim before the `try`, release in the `finally`).",
     "small modern idioms throughout `filehashstore.py`, each one only where it is exactly equivalent: `contextlib.suppress(X)` for a `try: ... except X: pass`-style handler whose body only swallows, `any()` / `all()` / `next()` for flag loops, walrus assignments, `enumerate`, chained comparisons, `dict.get` with default, early `continue` in loops, f-strings for concatenations. Do not touch what a handler catches or re-raises.",
     "naming: rename a handful of private helpers to clearer names consistently at definition and every call site (for example `_delete` -> `_delete_entity_file`, `_exists` -> `_entity_file_exists`, `_open` -> `_open_entity_file`, `_get_file_paths` -> `_list_directory_files`, `_mktmpfile` -> `_create_tmp_file`), and keep a thin alias with the old name ONLY where the tests call the old name directly; rename locals that shadow builtins (`file`, `dir`).",
+    "`hashstoreclient.py` beyond `main()`: tidy `HashStoreClient` and the bulk helpers (`store_to_hashstore_from_list`, `retrieve_and_validate_from_hashstore`, `delete_objects_from_list`, `MetacatDB`): type hints, f-strings, `with multiprocessing.Pool(...) as pool` where it is exactly equivalent to the existing create / close / join sequence, extracted small functions, consistent names. The option parsing and every call into the HashStore API (which method, which arguments in which order, which defaults) stay exactly as they are.",
+    "`_verify_hashstore_references` and `_verify_object_information`: split each into smaller private checkers (one per thing verified), with guard clauses instead of nested if/else; every raise keeps its class, message and the condition under which it fires; every deletion of the temp file stays in front of the raise it belongs to.",
+    "`_write_to_tmp_file_and_get_hex_digests`, `_mktmpfile`, `_mktmpmetadata`: restructure the try / except / finally and the completion flag (for example try / except / else, or an early-return style, or a small context manager that removes the temp file unless told it was completed) so that exactly the same clean-up happens on exactly the same paths; rename locals for clarity.",
+    "entity names: introduce `class Entity(str, enum.Enum)` (members OBJECTS='objects', METADATA='metadata', REFS='refs', CID='cid', PID='pid', TMP='tmp') and use its members instead of the string literals at the call sites of `_get_store_path`, `_delete`, `_exists`, `_open`, `_count` inside `filehashstore.py`; plain strings must keep working for every caller (the members ARE strings), comparisons inside the helpers keep their meaning.",
+    "`FileHashStore.__init__` is long: extract `_init_store_paths(self, ...)` (root / objects / metadata / refs / cids / pids / the yaml path and the creation of the directories) and `_init_synchronization(self)` (the whole multiprocessing / threading block that creates locks, conditions and locked lists) as private methods called from `__init__` at exactly the points where the code was, keeping the order of every file-system operation and every attribute name.",
+    "`delete_object`: move the body of each of the four recovery branches (the `except OrphanPidRefsFileFound`, `except RefsFileExistsButCidObjMissing`, `except PidNotFoundInCidRefsFile` handlers and the normal path's inner block) into its own private method (`_delete_object_normal(...)`, `_delete_object_orphan_pid_refs(...)`, ...), called from exactly where the code was, with the claims taken and released exactly as now and the same order of renames / removals / metadata deletion.",
     "`delete_metadata` and `delete_object`: reduce nesting - early returns, loop bodies extracted into private methods (e.g. `_delete_one_metadata_document(pid, path, objects_to_delete)`), keep the per-document claim / re-check / rename / release sequence and the order of `_delete_marked_files` / `delete_metadata` calls exactly.",
 ]
 
